@@ -2,6 +2,7 @@ pub mod c03;
 pub mod c04;
 pub mod c12;
 pub mod c05;
+pub mod c06;
 pub mod c10;
 pub mod c11;
 pub mod c16;
@@ -19,6 +20,7 @@ pub fn lookup(prop: &str) -> Option<CheckFn> {
         "C04" => Some(c04::check),
         "C12" => Some(c12::check),
         "C05" => Some(c05::check),
+        "C06" => Some(c06::check),
         "C10" => Some(c10::check),
         "C11" => Some(c11::check),
         "C16" => Some(c16::check),
